@@ -1,0 +1,13 @@
+//go:build verif
+
+package scheduler
+
+import "github.com/ngicks/mockable"
+
+// VerifSetClock swaps the clock. Verification builds only.
+func (s *Scheduler) VerifSetClock(c mockable.Clock) { s.clock = c }
+
+// VerifQueueLen reports the event queue's queued and reserved counts.
+func (s *Scheduler) VerifQueueLen() (queued, reserved int) {
+	return s.eventQueue.Len()
+}
